@@ -87,6 +87,13 @@ pub fn gen_cases(cfg: &RunCfg) -> Vec<Case> {
         raw.push(format!("x-{k}"));
         raw.push(upper_first(k));
         raw.push(k.to_uppercase());
+        // the escape the generator puts in front of a keyword, written by the user
+        raw.push(format!("r-{k}"));
+    }
+    for n in ["r-flag", "flag", "r-r-limit", "r-2", "rX", "r", "R", "r-", "r1", "r-r", "R-flag", "r-Flag", "rr-flag", "r-r-r", "r-x-r"] {
+        if valid_asn_name(n) {
+            raw.push(n.to_string());
+        }
     }
     // exhaustive: all valid names of length ≤ 3 (thorough ≤ 4) over {a, B, 1, -}
     let alpha = ['a', 'B', '1', '-'];
